@@ -151,11 +151,42 @@ CexOk(e) ==
                \/ (e.cex.polarity = "should" /\ ~(w \in B /\ w \notin A)))
      \cup (IF e.cex.minimal THEN BadC("counterexample_minimal", \E u \in (A \ B) \cup (B \ A) : Len(u) < Len(w)) ELSE {})
 
+(* ---- the checkers as they are written (operational view) --------------------------------- *)
+(* For most families the code looks at exactly what the criterion states; the product checker  *)
+(* (check_product_automaton) additionally demands that EVERY final product state is present    *)
+(* in the answer, and only inspects answer transitions that leave a product state.             *)
+ProductModelOk(e, FinalOp(_, _)) ==
+  LET A == FaOf(e.ans)
+      D1 == FaOf(e.d1)
+      D2 == FaOf(e.d2)
+      PairOf(q) == LET i == CHOOSE i \in DOMAIN e.pairs : e.pairs[i][1] = q IN <<e.pairs[i][2], e.pairs[i][3]>>
+      IsProd(pr) == pr[1] \in D1.Q /\ pr[2] \in D2.Q
+  IN /\ \A q \in A.Q : IsProd(PairOf(q))
+     /\ A.S = D1.S
+     /\ PairOf(A.q0) = <<D1.q0, D2.q0>>
+     /\ \A t \in A.T : IsProd(PairOf(t[1])) =>
+            PairOf(t[3]) = <<Delta(D1, PairOf(t[1])[1], t[2]), Delta(D2, PairOf(t[1])[2], t[2])>>
+     /\ {PairOf(q) : q \in A.F} = {pr \in D1.Q \X D2.Q : FinalOp(pr[1] \in D1.F, pr[2] \in D2.F)}
+     /\ \A w \in WordsUpTo(A.S, e.length) :
+           AcceptsBySubsets(A, w) <=> FinalOp(AcceptsBySubsets(D1, w), AcceptsBySubsets(D2, w))
+ModelOk(e) ==
+  CASE e.family = "union" -> ProductModelOk(e, LAMBDA x, y : x \/ y)
+    [] e.family = "intersection" -> ProductModelOk(e, LAMBDA x, y : x /\ y)
+    [] e.family = "symmetric_difference" -> ProductModelOk(e, LAMBDA x, y : x # y)
+    [] OTHER -> Criterion(e)
+(* the model never says OK to an answer that violates the criterion (the M-side of C12) *)
+ModelSound(e) == ModelOk(e) => Criterion(e)
+
 JCheck(e) ==
   (IF e.verdict = "OK"
    THEN (IF e.illformed THEN {"illformed_not_ok"} ELSE BadC("ok_implies_criterion", ~Criterion(e)))
    ELSE {})
   \cup (IF e.has_cex THEN CexOk(e) ELSE {})
+  (* binding: the real verdict is the operational model's verdict (a checker that became stricter or *)
+  (* laxer than its model is shown here even when C12 itself still holds)                            *)
+  \cup (IF e.illformed \/ e.exc # "none" THEN {}
+        ELSE BadC("binding_verdict_is_model_verdict", (e.verdict = "OK") # ModelOk(e))
+             \cup BadC("binding_model_sound", ~ModelSound(e)))
 
 (* C13: the library's own answer passes its checker *)
 JSelfCheck(e) == BadC("own_answer_ok", e.verdict # "OK")
